@@ -55,10 +55,10 @@ def check_replace(url, changes):
     except ValueError as e:
         return ["result does not split: %r" % e]
     want = dict(b)
-    want.update(changes)
+    want.update({k: v for k, v in changes.items() if not (k == "hostname" and v is None)})   # hostname=None: unchanged
     if want.get("username") is None:
         want["password"] = None       # removing the user removes both; a password needs a user name
-    if "hostname" in changes and changes["hostname"].startswith("["):
+    if changes.get("hostname") and changes["hostname"].startswith("["):
         want["hostname"] = changes["hostname"][1:-1]
     if want["hostname"] is not None:
         want["hostname"] = want["hostname"].lower()
@@ -130,7 +130,7 @@ def bounded(tier, seed):
     for scheme in ("http", "https", "ws"):
         for host in ("h", "1.2.3.4", "[::1]"):
             for port in ("", ":8080"):
-                for userinfo in ("", "u@", "u:s3cr3t@", "u:pw%40x@"):
+                for userinfo in ("", "u@", "u:s3cr3t@", "u:pw%40x@", "u:p@ss@"):
                     urls.append("%s://%s%s%s/p/q?a=1&a=2&b=#frag" % (scheme, userinfo, host, port))
     comps = {"scheme": "https", "path": "/new", "query": "n=1", "fragment": "f2", "username": "bob", "password": "s3cr:et", "hostname": "other",
              "port": 81}
@@ -150,7 +150,7 @@ def bounded(tier, seed):
                 failures.append({"inputs": {"kind": "replace", "url": url, "changes": ch}, "violated": v})
             elif len(samples) < 3 and len(sub) == 2 and "@" in url:
                 samples.append({"url": url, "changes": ch})
-        for ch in ({"hostname": "[::2]"}, {"username": None}, {"port": None}):
+        for ch in ({"hostname": "[::2]"}, {"username": None}, {"port": None}, {"port": 0}, {"password": ""}):
             evals += 1
             v = check_replace(url, ch)
             if v and len(failures) < 10:
@@ -162,7 +162,7 @@ def bounded(tier, seed):
                 failures.append({"inputs": {"kind": kind, "url": url}, "violated": v})
     return {"evaluations": evals, "distinct_nontrivial": len(distinct), "failures": failures, "samples": samples,
             "rule": "construction: schemes {http,https,ws,wss} x servers (default / non-default port, IPv4, IPv6) x Host header "
-                    "{absent, name, name:port, IPv6:port} x (root, path, query) from environ and from scope; replace: 72 URLs "
-                    "(named / IPv4 / IPv6 host, port, user, password incl. an escaped '@') x every subset of <= 2 (thorough: 3) "
+                    "{absent, name, name:port, IPv6:port} x (root, path, query) from environ and from scope; replace: 90 URLs "
+                    "(named / IPv4 / IPv6 host, port, user, password incl. an escaped and a literal '@') x every subset of <= 2 (thorough: 3) "
                     "components, observed through urlsplit; query helpers; repr never shows the password",
             "exhaustive": False}
